@@ -149,6 +149,14 @@ theorem entry_promotion_only_within_the_function (x : IR) (blk : Block) (n : Opt
       x.sameFunction blk.id (n.getD 0) = true) :=
   removeFunctions_isEntry x blk n nc c g h
 
+/-- … and over everything `remove_block` does to the tables: with `retarget_to_proxy` (`t = true`)
+no block inherits the entry; without it only the next block can, under the conditions above -/
+theorem removal_promotes_only_the_next_block_of_the_function (x : IR) (blk : Block) (t c : Bool) (px p n : Option Nat)
+    (k g : Nat) (h : (x.removeStages blk t c px p n).isEntry k g) :
+    x.isEntry k g ∨ (t = false ∧ k = n.getD 0 ∧ x.isCodeBlockId n = true ∧ x.isEntry blk.id g ∧
+      alookup blk.id x.fbb = some g ∧ x.sameFunction blk.id (n.getD 0) = true) :=
+  removeStages_isEntry x blk t c px p n k g h
+
 /-! ### non-vacuity -/
 private def demo : IR := { fbb := [(1, 7), (2, 7)], aux := { funcBlocks := [(7, [1, 2])], funcEntries := [(7, [1])], funcNames := [(7, 99)] } }
 example : Mirror demo := by
